@@ -136,3 +136,9 @@ package stickycookie
 //@   requires v != nil
 //@   modifies nothing
 //@   nopanic
+
+//@ extern bytes.LastIndexByte
+//@   params s c
+//@   modifies nothing
+//@   nopanic
+//@   ensures -1 <= result && result < len(s)
